@@ -343,7 +343,22 @@ func runSeqhash(w *mon.W, c05 bool) {
 			alpha = oracle.IUPACCodes
 		}
 		var s string
-		switch r.Intn(4) {
+		switch r.Intn(5) {
+		case 4:
+			// an element that holds the least rotation's start (it begins with a run of A) occurs twice on the
+			// molecule, in the same or in opposite orientation, with different neighbours (insertion sequences,
+			// composite transposons, dual cassettes): the canonical start is decided far into the sequence
+			el := strings.Repeat("A", 4+r.Intn(12)) + randString(r, alpha, []int{30, 300, 600, 1100, 3000}[r.Intn(5)]+r.Intn(40))
+			second := el
+			if r.Intn(2) == 0 {
+				second = oracle.MustRevComp(el)
+			}
+			bg := strings.ReplaceAll(alpha, "A", "")
+			s = el + randString(r, bg, 1+r.Intn(300)) + second + randString(r, bg, 1+r.Intn(300))
+			if r.Intn(2) == 0 {
+				s = rotate(s, r.Intn(len(s)))
+			}
+			w.Add("inputs_with_an_element_occurring_twice", 1)
 		case 0: // periodic: many equal rotations
 			u := randString(r, alpha, 1+r.Intn(9))
 			s = strings.Repeat(u, n/len(u)+1)[:n]
